@@ -63,6 +63,25 @@ PURE_METHODS = NOISE_METHODS | {
 }
 
 
+OPTION_METHODS = {"is_some", "is_none", "is_ok", "is_err", "unwrap_or", "unwrap_or_else", "unwrap_or_default", "map_or", "map_or_else", "is_some_and", "is_ok_and", "is_none_or", "map", "and_then"}
+# name -> 'Option' | 'Result' for the crates' own functions whose declared return type is one (set by lib.ast.Ast)
+RET_FAMILY = {}
+
+
+def set_ret_family(items_by_crate):
+    RET_FAMILY.clear()
+    seen = {}
+    for items in items_by_crate:
+        for it in items:
+            if it.get("k") == "Fn" and it.get("sig"):
+                ret = (it["sig"].get("ret") or "").replace(" ", "")
+                fam = "Option" if ret.startswith("Option<") else "Result" if ret.startswith("Result<") else ""
+                seen.setdefault(it["name"], set()).add(fam)
+    for n, fs in seen.items():
+        if len(fs) == 1 and "" not in fs:
+            RET_FAMILY[n] = next(iter(fs))
+
+
 _SHOW_ENV = [None]
 
 
@@ -236,8 +255,21 @@ class Run:
         self.actions = []
         self.fields = dict(cfg.known_fields)
         self.depth = 0
+        self.varfam = {}
 
     no_choice = False
+
+    def param_families(self, sig):
+        for p in (sig or {}).get("params", []):
+            ty = (p.get("ty") or "").replace(" ", "").lstrip("&")
+            if ty.startswith("mut"):
+                ty = ty[3:]
+            fam = "Option" if ty.startswith("Option<") else "Result" if ty.startswith("Result<") else None
+            if fam and p.get("pat", {}).get("k") == "PIdent":
+                self.varfam[p["pat"]["name"]] = fam
+        self.ret_ty = ((sig or {}).get("ret") or "").replace(" ", "")
+
+    ret_ty = ""
 
     def choose(self, kind, label, options):
         if self.no_choice:
@@ -411,15 +443,7 @@ class Run:
         if isinstance(v, bool):
             return v
         if is_unk(v):
-            lab = showv(v) if label is None else label
-            neg = False
-            while lab.startswith("!"):
-                lab = lab[1:]
-                neg = not neg
-            ne = _split_top_ne(lab)
-            if ne is not None:
-                lab = "(%s == %s)" % ne
-                neg = not neg
+            lab, neg = canon_cond(showv(v) if label is None else label)
             r = self.choose("guard", lab, [("true", True), ("false", False)])
             if lab in self.cfg.guards and lab.startswith("self.") and "(" not in lab:
                 self.fields[lab] = r
@@ -451,6 +475,10 @@ class Run:
             return ("obj", p)
         if last[:1].isupper() and not last.isupper():
             return ("ctor", last, ())
+        it = self.cfg.inline.get(last) if isinstance(self.cfg.inline, dict) else None
+        if it is not None and it.get("new_private") and it.get("sig") and it.get("body") is not None and not any(p.get("name") == "self" for p in it["sig"]["params"]):
+            # a function used as a value (`.any(pred)`) is the closure `|a..| pred(a..)`
+            return ("closure", {"k": "Closure", "params": [p["pat"] for p in it["sig"]["params"]], "body": {"k": "Block", "body": it["body"]}}, {})
         return ("unk", show(e))
 
     def e_Ref(self, e, env):
@@ -831,10 +859,13 @@ class Run:
             env2[n] = ("unk", "\u03c6(%s)" % showv(env[n]))
         self.act("loop-begin " + what)
         how = "end"
+        brk_val = UNIT
         try:
             self.block(body, env2)
-        except _Break:
+        except _Break as b:
             how = "break"
+            if b.v is not None:
+                brk_val = ("unk", "loop(%s)" % showv(b.v))
         except _Continue:
             how = "end"  # `continue` = falling off the end of the body: the iteration is over either way
         self.act("loop-end", [("unk", how)])
@@ -843,18 +874,15 @@ class Run:
             env[n] = val
             if outer is not None and n in outer:
                 outer[n] = val
-        return UNIT
+        return brk_val
 
     def e_While(self, e, env):
-        cond = e["cond"]
+        """`while c { B }` is `loop { if c { B } else { break } }` (and the `while let` form likewise): one canonical
+        shape for both spellings, the test appears as an ordinary guard inside the loop"""
+        brk = {"k": "Block", "body": [{"k": "ExprStmt", "e": {"k": "Break"}, "semi": True}]}
+        body = [{"k": "ExprStmt", "e": {"k": "If", "cond": e["cond"], "then": e["body"], "else": brk}, "semi": False}]
         env2 = dict(env)
-        if cond["k"] == "LetCond":
-            v = self.eval(cond["e"], env2)
-            self.match(cond["pat"], v if not is_unk(v) else v, env2)
-            what = "while %s matches %s" % (showv(v), self.showpat(cond["pat"]))
-        else:
-            what = "while " + show_env(cond, env2)
-        return self._summary_loop(what, e["body"], env2, env)
+        return self._summary_loop("loop", body, env2, env)
 
     def e_For(self, e, env):
         env2 = dict(env)
@@ -863,17 +891,15 @@ class Run:
         return self._summary_loop("for _ in " + showv(it), e["body"], env2, env)
 
     def e_Try(self, e, env):
+        """`x?` is `match x { Some(v) => v, None => return None }` (Ok / Err for a Result): the same canonical test"""
         v = self.eval(e["e"], env)
-        if isinstance(v, tuple) and v[0] == "ctor":
-            if v[1] == "Some":
-                return v[2][0]
-            if v[1] == "None":
-                raise _Return(v)
-        if is_unk(v):
-            if self.choose("guard", showv(v) + " is Some/Ok", [("true", True), ("false", False)]):
-                return ("unk", showv(v) + "?")
+        fam = self.family(e["e"], v) or ("Result" if self.ret_ty.startswith("Result<") else "Option")
+        ok, pay = self.present(v, fam)
+        if ok:
+            return pay
+        if fam == "Option":
             raise _Return(("ctor", "None", ()))
-        raise Unsupported("try")
+        raise _Return(("unk", "Err(%s.err)" % showv(v)))
 
     def e_Field(self, e, env):
         b = self.eval(e["e"], env)
@@ -1010,6 +1036,116 @@ class Run:
             return len(c.encode("utf-8"))
         return None
 
+    # ---------------------------------------------------------- Option / Result combinators as pattern tests
+    OPT0 = {"pop", "pop_front", "pop_back", "last", "first", "next", "next_back", "peek", "take", "upgrade", "last_mut", "first_mut", "checked_neg"}
+    OPT1 = {"get", "get_mut", "find", "position", "rposition", "checked_add", "checked_sub", "checked_mul", "checked_div", "strip_prefix", "strip_suffix", "nth", "to_digit", "find_map",
+            "max_by_key", "min_by_key", "remove_entry"}
+    KEEP_FAMILY = {"as_ref", "as_mut", "as_deref", "as_deref_mut", "cloned", "copied", "clone", "borrow", "borrow_mut", "filter", "or", "or_else", "map", "and_then", "inspect", "take"}
+
+    def family(self, ex, v=None):
+        """'Option' / 'Result' / None for the value of an expression (syntactic: constructors, declared return types of the
+        crate's own functions, the std methods that return Option, locals bound to such values)"""
+        if isinstance(v, tuple) and v and v[0] == "ctor":
+            if v[1] in ("Some", "None"):
+                return "Option"
+            if v[1] in ("Ok", "Err"):
+                return "Result"
+        k = ex.get("k")
+        while k in ("Ref", "Paren", "Unary"):
+            ex = ex["e"]
+            k = ex.get("k")
+        if k == "Path":
+            return self.varfam.get(ex["path"])
+        if k == "Call" and ex["f"].get("k") == "Path":
+            last = ex["f"]["path"].split("::")[-1]
+            if last in ("Some",):
+                return "Option"
+            if last in ("Ok", "Err"):
+                return "Result"
+            if last in ("from_u32", "from_digit"):
+                return "Option"
+            return RET_FAMILY.get(last)
+        if k == "MethodCall":
+            m, n = ex["m"], len(ex["args"])
+            if m in ("ok", "err"):
+                return "Option"
+            if m in ("ok_or", "ok_or_else"):
+                return "Result"
+            if (m in self.OPT0 and n == 0) or (m in self.OPT1 and n == 1):
+                if m == "take" or m in ("map",):
+                    pass
+                return "Option"
+            if m in self.KEEP_FAMILY:
+                return self.family(ex["recv"])
+            r = ex["recv"]
+            while r.get("k") in ("Ref", "Paren", "Unary"):
+                r = r["e"]
+            if r.get("k") == "Path" and r["path"] in ("self", "Self"):
+                return RET_FAMILY.get(m)
+            return None
+        if k == "Try":
+            return None
+        if k == "Field":
+            return None
+        return None
+
+    def present(self, v, fam):
+        """fork on `v matches Some(_)` / `Ok(_)`; -> (is present, payload)"""
+        pat = {"k": "PTupleStruct", "path": "Ok" if fam == "Result" else "Some", "elems": [{"k": "PIdent", "name": "__p", "sub": None}]}
+        env2 = {}
+        r = self.match(pat, v, env2)
+        if r is None:
+            r = self.pat_guard(v, pat)
+        return bool(r), env2.get("__p")
+
+    def call_value(self, c, args):
+        if isinstance(c, tuple) and c and c[0] == "closure":
+            return self.apply_closure(c, args)
+        return ("unk", "%s(%s)" % (showv(c), ",".join(showv(a) for a in args)))
+
+    def option_method(self, e, recv, args):
+        """models of the Option / Result combinators: the same canonical pattern test as the `match` / `if let` spelling.
+        -> value, or NotImplemented"""
+        m = e["m"]
+        n = len(args)
+        if not (is_unk(recv) or (isinstance(recv, tuple) and recv and recv[0] in ("ctor", "obj"))):
+            return NotImplemented
+        if isinstance(recv, tuple) and recv[0] == "obj" and (recv[1] in self.fields or m not in ("is_some", "is_none", "is_ok", "is_err")):
+            return NotImplemented
+        fam = self.family(e["recv"], recv)
+        if m in ("is_some", "is_none") and n == 0:
+            ok, _ = self.present(recv, "Option")
+            return ok if m == "is_some" else not ok
+        if m in ("is_ok", "is_err") and n == 0:
+            ok, _ = self.present(recv, "Result")
+            return ok if m == "is_ok" else not ok
+        if m in ("unwrap_or", "unwrap_or_else", "unwrap_or_default", "map_or", "map_or_else", "is_some_and", "is_ok_and", "is_none_or") or (m in ("map", "and_then") and fam is not None and n == 1):
+            fam = fam or ("Result" if m == "is_ok_and" else "Option")
+            ok, pay = self.present(recv, fam)
+            if m == "unwrap_or" and n == 1:
+                return pay if ok else args[0]
+            if m == "unwrap_or_else" and n == 1:
+                return pay if ok else self.call_value(args[0], [] if fam == "Option" else [("unk", showv(recv) + ".err")])
+            if m == "unwrap_or_default" and n == 0:
+                return pay if ok else ("unk", "default()")
+            if m == "map_or" and n == 2:
+                return self.call_value(args[1], [pay]) if ok else args[0]
+            if m == "map_or_else" and n == 2:
+                return self.call_value(args[1], [pay]) if ok else self.call_value(args[0], [])
+            if m in ("is_some_and", "is_ok_and") and n == 1:
+                return self.call_value(args[0], [pay]) if ok else False
+            if m == "is_none_or" and n == 1:
+                return self.call_value(args[0], [pay]) if ok else True
+            if m == "map" and n == 1:
+                if ok:
+                    return ("ctor", "Ok" if fam == "Result" else "Some", (self.call_value(args[0], [pay]),))
+                return ("ctor", "None", ()) if fam == "Option" else recv
+            if m == "and_then" and n == 1:
+                if ok:
+                    return self.call_value(args[0], [pay])
+                return ("ctor", "None", ()) if fam == "Option" else recv
+        return NotImplemented
+
     def e_MethodCall(self, e, env):
         m = e["m"]
         # noise wrappers
@@ -1033,6 +1169,10 @@ class Run:
                 return recv[1] == "Some"
             if m == "is_none":
                 return recv[1] == "None"
+        if m in OPTION_METHODS:
+            r = self.option_method(e, recv, args)
+            if r is not NotImplemented:
+                return r
         if isinstance(recv, tuple) and recv[0] == "obj":
             root = recv[1]
             full = root + "." + m
@@ -1131,6 +1271,12 @@ class Run:
                     self.eval(s["else"], env)
                     raise Unsupported("let-else fell through")
                 env.update(env2)
+                if s["pat"]["k"] == "PIdent":
+                    fam = self.family(s["init"], v)
+                    if fam:
+                        self.varfam[s["pat"]["name"]] = fam
+                    else:
+                        self.varfam.pop(s["pat"]["name"], None)
             elif k == "ExprStmt":
                 ex = s["e"]
                 if ex["k"] == "Block" and is_log_block(ex):
@@ -1151,8 +1297,11 @@ class Run:
         return last
 
 
-def _split_top_ne(lab):
-    """'(A != B)' -> (A, B) when the != is at the top level of the outer parentheses; canonical guards use =="""
+_CMP_OPS = (" != ", " == ", " <= ", " >= ", " < ", " > ")
+
+
+def _split_top_cmp(lab):
+    """'(A op B)' -> (A, op, B) when exactly one comparison operator sits at the top level of the outer parentheses"""
     if not (lab.startswith("(") and lab.endswith(")")):
         return None
     depth = 0
@@ -1179,14 +1328,58 @@ def _split_top_ne(lab):
             depth -= 1
             if depth == 0 and i != n - 1:
                 return None
-        elif depth == 1 and lab.startswith(" != ", i):
-            if pos is not None:
-                return None
-            pos = i
+        elif depth == 1 and ch == " ":
+            for op in _CMP_OPS:
+                if lab.startswith(op, i):
+                    if pos is not None:
+                        return None
+                    pos = (i, op)
+                    i += len(op) - 1
+                    break
+            else:
+                if lab.startswith(" && ", i) or lab.startswith(" || ", i):
+                    return None
         i += 1
     if pos is None:
         return None
-    return lab[1:pos], lab[pos + 4:-1]
+    return lab[1:pos[0]], pos[1].strip(), lab[pos[0] + len(pos[1]):-1]
+
+
+def _split_top_ne(lab):
+    c = _split_top_cmp(lab)
+    return (c[0], c[2]) if c and c[1] == "!=" else None
+
+
+def canon_cond(lab):
+    """-> (canonical label, negated): `!x`, `a != b`, `a > b`, `a >= b`, `a <= b`, `x == true/false` are spelled with `==` and `<` only"""
+    neg = False
+    for _ in range(8):
+        while lab.startswith("!"):
+            lab = lab[1:]
+            neg = not neg
+        c = _split_top_cmp(lab)
+        if c is None:
+            break
+        a, op, b = c
+        if op == "!=":
+            lab, neg = "(%s == %s)" % (a, b), not neg
+        elif op == ">":
+            lab = "(%s < %s)" % (b, a)
+        elif op == ">=":
+            lab, neg = "(%s < %s)" % (a, b), not neg
+        elif op == "<=":
+            lab, neg = "(%s < %s)" % (b, a), not neg
+        elif op == "==" and b in ("true", "false"):
+            lab, neg = a, (neg if b == "true" else not neg)
+            continue
+        elif op == "==" and a in ("true", "false"):
+            lab, neg = b, (neg if a == "true" else not neg)
+            continue
+        else:
+            break
+        if op != "!=":
+            break
+    return lab, neg
 
 
 # crate-level scalar constants used when a Config does not name its own (set per crate by scalar_consts())
